@@ -87,6 +87,11 @@ def _map_query_error(error: duckdb.Error, sql_query: str) -> Exception:
             "2-1-19-19", value1=parts[0].strip(), op="comparison", value2=parts[1].strip()
         )
 
+    # Time_Period output representation that cannot express the period indicator
+    if "vtl error 2-1-19-21" in msg_lower:
+        period = msg.rsplit("got ", 1)[-1].strip() if "got " in msg else "unknown"
+        return RunTimeError("2-1-19-21", period=period)
+
     # daytoyear / daytomonth: negative input value (check before 2-1-19-1 prefix match)
     if "vtl error 2-1-19-16" in msg_lower:
         op = "daytoyear" if "daytoyear" in msg_lower else "daytomonth"
@@ -144,8 +149,8 @@ def _map_query_error(error: duckdb.Error, sql_query: str) -> Exception:
     if "cannot take logarithm of a negative number" in msg_lower:
         return RunTimeError("2-1-15-3", op="log", value="negative")
 
-    # Return original error if no mapping found
-    return error
+    # No specific mapping: still surface it as a VTL runtime error, never as a raw DuckDB error
+    return RunTimeError("2-1-1-1", op="query", error=msg)
 
 
 def _format_timestamp(ts: Any) -> str:
@@ -533,18 +538,21 @@ def execute_queries(
             raise
 
         # Clean up datasets scheduled for deletion
-        cleanup_scheduled_datasets(
-            conn=conn,
-            statement_num=statement_num,
-            ds_analysis=ds_analysis,
-            output_folder=output_folder,
-            output_datasets=output_datasets,
-            output_scalars=output_scalars,
-            results=results,
-            return_only_persistent=return_only_persistent,
-            representation=representation,
-            output_format=output_format,
-        )
+        try:
+            cleanup_scheduled_datasets(
+                conn=conn,
+                statement_num=statement_num,
+                ds_analysis=ds_analysis,
+                output_folder=output_folder,
+                output_datasets=output_datasets,
+                output_scalars=output_scalars,
+                results=results,
+                return_only_persistent=return_only_persistent,
+                representation=representation,
+                output_format=output_format,
+            )
+        except duckdb.Error as e:
+            raise _map_query_error(e, sql_query) from e
 
     # Handle final results not yet processed
     for result_name, _, is_persistent in queries:
@@ -555,15 +563,18 @@ def execute_queries(
         if not should_include:
             continue
 
-        results[result_name] = fetch_result(
-            conn=conn,
-            result_name=result_name,
-            output_folder=output_folder,
-            output_datasets=output_datasets,
-            output_scalars=output_scalars,
-            representation=representation,
-            output_format=output_format,
-        )
+        try:
+            results[result_name] = fetch_result(
+                conn=conn,
+                result_name=result_name,
+                output_folder=output_folder,
+                output_datasets=output_datasets,
+                output_scalars=output_scalars,
+                representation=representation,
+                output_format=output_format,
+            )
+        except duckdb.Error as e:
+            raise _map_query_error(e, "") from e
 
     # Save scalars to CSV when output_folder is provided
     if output_folder:
